@@ -88,7 +88,8 @@ impl Ctx {
         let mut unlisted = 0;
         let mut seen_sig: Vec<String> = Vec::new();
         let mut lines: Vec<String> = Vec::new();
-        let replay_dir = format!("{}/replays", self.verif_dir);
+        let out_dir = std::env::var("BVMON_OUT_DIR").unwrap_or_else(|_| self.verif_dir.clone());
+        let replay_dir = format!("{}/replays", out_dir);
         for v in &violations {
             if seen_sig.contains(&v.signature) {
                 continue;
@@ -133,7 +134,7 @@ impl Ctx {
             "wall_s": (self.elapsed() * 1000.0).round() / 1000.0,
             "violations": unlisted,
         });
-        let ev_dir = format!("{}/evidence", self.verif_dir);
+        let ev_dir = format!("{}/evidence", out_dir);
         std::fs::create_dir_all(&ev_dir).ok();
         let ev_path = std::env::var("BVMON_EVIDENCE").unwrap_or_else(|_| format!("{}/{}.json", ev_dir, self.prop));
         std::fs::write(&ev_path, serde_json::to_string_pretty(&ev).unwrap()).expect("write evidence");
